@@ -149,15 +149,15 @@ theorem C09_F_ptrMapper_witness :
     region09 wPtrMapper = "F_ptrMapper" ∧
     obs09 wPtrMapper ["Mapper"] [] ["0", "1"] [""] ≠ spec09 wPtrMapper ["Mapper"] [] ["0", "1"] [""] := by decide
 
-/-- `type Node struct{ *Node; Val int }`: the field walk of the generator never returns — no output at all, where the
-    property wants ToX/FromX that copy `Val` and never panic -/
+/-- `type Node struct{ *Node; Val int }`: the field walk does not enter a struct it is already inside of — ToX/FromX copy
+    `Val` and never touch the (always nil) back reference (was finding region F_selfEmbed: the generator did not return) -/
 def wSelfEmbed : Input :=
   { src := .embed "Node" true .nil (.field { name := "Val", ty := .basic "int" } .nil),
     dest := .field { name := "Val", ty := .basic "int" } .nil,
     cyclic := true }
 
-theorem C09_F_selfEmbed_witness :
-    regionGen wSelfEmbed (region09 wSelfEmbed) "F_selfEmbed" = "F_selfEmbed" ∧
-    obsGen wSelfEmbed (obs09 wSelfEmbed [] [] [""] [""]) ≠ spec09 wSelfEmbed [] [] [""] [""] := by decide
+theorem C09_selfEmbed_fixed :
+    region09 wSelfEmbed = "WF" ∧
+    obs09 wSelfEmbed [] [] [""] [""] = spec09 wSelfEmbed [] [] [""] [""] := by decide
 
 end ShootVerif.Mapper
